@@ -678,10 +678,15 @@ impl Open for VirtualSystem {
     }
 
     fn fdopendir(&self, fd: Fd) -> Result<impl Dir + use<>> {
-        self.with_open_file_description(fd, |ofd| {
+        let dir = self.with_open_file_description(fd, |ofd| {
             let inode = ofd.inode();
             let dir = VirtualDir::try_from(&inode.borrow().body)?;
             Ok(dir)
+        })?;
+        Ok(OwnedVirtualDir {
+            dir,
+            system: self.clone(),
+            fd,
         })
     }
 
@@ -708,6 +713,33 @@ impl Open for VirtualSystem {
         )));
         let fd = self.create_fd(open_file_description, OpenFlag::Directory.into())?;
         self.fdopendir(fd)
+    }
+}
+
+/// Directory stream that owns the file descriptor it was opened on
+///
+/// Like a `DIR` stream of a real system, the stream takes ownership of its
+/// backing file descriptor and closes it when the stream is dropped.
+#[derive(Debug)]
+struct OwnedVirtualDir<D> {
+    dir: D,
+    system: VirtualSystem,
+    fd: Fd,
+}
+
+impl<D: Dir> Dir for OwnedVirtualDir<D> {
+    fn next(&mut self) -> Result<Option<super::DirEntry<'_>>> {
+        self.dir.next()
+    }
+}
+
+impl<D> Drop for OwnedVirtualDir<D> {
+    fn drop(&mut self) {
+        if let Ok(mut state) = self.system.state.try_borrow_mut()
+            && let Some(process) = state.processes.get_mut(&self.system.process_id)
+        {
+            process.close_fd(self.fd);
+        }
     }
 }
 
